@@ -33,7 +33,43 @@ func bs(s ...string) [][]byte {
 	return o
 }
 
+// genHLLSeq: more HLL keys than the caches of rockredis hold (32 dirty + 1024 read), so that the oldest
+// ones live only in the engine and PFCOUNT over several keys has to read them back through MultiGetBytes,
+// which rockredis.PFCount calls with the key slice as the result slice
+func genHLLSeq(r *hx.Rng, seq int) []cstep {
+	var st []cstep
+	n := 0
+	add := func(w bool, args [][]byte) {
+		n++
+		st = append(st, cstep{fmt.Sprintf("%d.%d", seq, n), w, args})
+	}
+	nk := 1100 + r.Pick(50)
+	pk := func(i int) []byte { return []byte(fmt.Sprintf("t:p%04d", i)) }
+	for i := 0; i < nk; i++ {
+		for j := 1; j > 0; j-- {
+			add(true, [][]byte{[]byte("pfadd"), pk(i), r.Bytes(1+r.Pick(3), []byte("abc\x00"))})
+		}
+		if i < 30 && r.Chance(0.5) {
+			add(true, [][]byte{[]byte("pfadd"), pk(i), r.Bytes(1+r.Pick(3), []byte("abc\x00"))})
+		}
+	}
+	for q := 12 + r.Pick(10); q > 0; q-- {
+		a := bs("pfcountm")
+		for j := 2 + r.Pick(3); j > 0; j-- {
+			a = append(a, pk(r.Pick(30))) // the oldest keys: evicted from both caches
+		}
+		add(false, a)
+	}
+	for q := 3; q > 0; q-- {
+		add(false, append(bs("pfcount"), pk(30+r.Pick(10))))
+	}
+	return st
+}
+
 func genCmdSeq(r *hx.Rng, seq int) []cstep {
+	if seq%40 == 0 {
+		return genHLLSeq(r, seq)
+	}
 	var st []cstep
 	n := 0
 	add := func(w bool, args [][]byte) {
@@ -48,10 +84,11 @@ func genCmdSeq(r *hx.Rng, seq int) []cstep {
 		return []byte([]string{"t:", "t:", "t:", "t:", "t:", "ta:"}[r.Pick(6)] + base + []string{"", "", "", "2"}[r.Pick(4)])
 	}
 	_ = hk
+	pkey := func() []byte { return []byte("t:p" + []string{"", "2", "3"}[r.Pick(3)]) } // one table: PFCOUNT rejects mixed tables
 	cnt := func() string { return []string{"1", "2", "3", "10"}[r.Pick(4)] }
 	nw := 10 + r.Pick(25)
 	for i := 0; i < nw; i++ {
-		switch r.Pick(9) {
+		switch r.Pick(10) {
 		case 0, 1:
 			add(true, [][]byte{[]byte("hset"), key("h"), elem(), []byte("v" + fmt.Sprint(i))})
 		case 2, 3:
@@ -67,12 +104,22 @@ func genCmdSeq(r *hx.Rng, seq int) []cstep {
 			default:
 				add(true, [][]byte{[]byte("zrem"), key("z"), elem()})
 			}
+		case 8:
+			add(true, [][]byte{[]byte("pfadd"), pkey(), elem()})
 		default:
 			add(true, [][]byte{[]byte("rpush"), key("l"), elem()})
 		}
 		if r.Chance(0.45) || i == nw-1 {
 			for j := 1 + r.Pick(4); j > 0; j-- {
-				switch r.Pick(16) {
+				switch r.Pick(18) {
+				case 16, 17:
+					// rockredis.PFCount over several keys (MultiGetBytes with the key slice as result slice);
+					// the node layer only accepts one key, so this goes to the store directly
+					a := bs("pfcountm")
+					for q := 1 + r.Pick(3); q > 0; q-- {
+						a = append(a, pkey())
+					}
+					add(false, a)
 				case 0:
 					add(false, [][]byte{[]byte("hrevscan"), key("h"), elem(), []byte("count"), []byte(cnt())})
 				case 1:
@@ -147,6 +194,20 @@ func runCmdSeq(eng string, steps []cstep) []string {
 		if s.write {
 			ts += 1000000
 			out[i] = sm.Apply(smx.OnePerCall, []smx.Req{{Args: s.args, Ts: ts}})[0]
+		} else if string(s.args[0]) == "pfcountm" {
+			func() {
+				defer func() {
+					if r := recover(); r != nil {
+						out[i] = "panic"
+					}
+				}()
+				n, err := sm.Store.PFCount(ts, s.args[1:]...)
+				if err != nil {
+					out[i] = "-err"
+				} else {
+					out[i] = fmt.Sprintf(":%d", n)
+				}
+			}()
 		} else {
 			out[i] = sm.Read(s.args...)
 		}
